@@ -164,7 +164,6 @@ theorem nonadvancing_depth_bounded {ks : List Nat} (hks : WF ks) {i f n h} (hc :
 
 /-- the largest rank: no chain of calls without an advance is longer than this -/
 def maxRank : Nat := ranks.foldl (fun m rk => rk.foldl (fun m p => max m p.2) m) 0
-theorem maxRank_small : maxRank ≤ 8 := by decide +kernel
 
 /-- **Termination of the skeleton program (partial w.r.t. the property: see the module comment).**
     For every token stream, every call of every parser function terminates from every token index — there is no infinite
